@@ -143,11 +143,12 @@ func (c *Ctx) buildSpecPrelude() (err error) {
 }
 
 func (c *Ctx) gen(fn *ssa.Function, prop string) (*Gen, error) {
-	return c.genWith(fn, prop, nil, nil)
+	return c.genWith(fn, prop, nil, nil, nil)
 }
 
-func (c *Ctx) genWith(fn *ssa.Function, prop string, forbid []Forbid, orderHeaps []string) (*Gen, error) {
+func (c *Ctx) genWith(fn *ssa.Function, prop string, forbid []Forbid, orderHeaps []string, guarded []GuardedBy) (*Gen, error) {
 	g := newGen(c.P, c.S, prop, fn, c.Frames)
+	g.guardedBy = guarded
 	g.forbid = forbid
 	g.orderHeaps = orderHeaps
 	g.preDecl = c.PreDecl
